@@ -310,7 +310,7 @@ func scopeClass(sb *sandbox, cfg *histCfg, cwd *node, kind, skind, L, loc string
 // the file that contains the load call.
 func (w *worker) judgeScope(cfg *histCfg, cwd *node, skind string, progs []scopeProg, L string, fn int, targets []string) []scopeResult {
 	sb := w.sb
-	dirfs := cfg.Part == "fs" && cfg.Root.Spelling == "dirfs"
+	dirfs := cfg.Part == "fs" && followsLinksOut(cfg.Root.Spelling)
 	obsv := w.runScope(cfg, progs, len(targets))
 	res := make([]scopeResult, len(targets))
 	for i, t := range targets {
